@@ -339,8 +339,12 @@ static void tso_drain_one(Fiber* f) {
 static void tso_drain_all(Fiber* f) { while (f->tso_n) tso_drain_one(f); }
 void tso_drain_self() { if (g_cur) tso_drain_all(g_cur); }
 bool tso_store(void* addr, const void* val, size_t n, int) {
-    if (!g_cur || n > 16 || !in_region(addr)) return false;
+    if (!g_cur || n > 16) return false;
     Fiber* f = g_cur;
+    // TSO keeps the stores of one thread in program order: an atomic store to an address outside the registered
+    // regions must not become visible before earlier stores of this fiber that are still buffered.  It is not queued
+    // (its target may be a stack object that is gone when the queue drains); the queue is drained first instead.
+    if (!in_region(addr)) { tso_drain_all(f); return false; }
     if (f->tso_n == TSO_CAP) tso_drain_one(f);
     TsoEntry& e = f->tso[f->tso_n++];
     e.addr = addr; e.n = (uint32_t)n; memcpy(e.val, val, n); e.born = g_step;
